@@ -12,6 +12,9 @@ import Manticore.Lemmas.Endian
 namespace Manticore.SmbStd
 open Manticore Manticore.SmbIR Manticore.C06 Manticore.SmbCodecs
 
+theorem toNat_ofNat_lt' (x : Nat) (h : x < 256) : (UInt8.ofNat x).toNat = x := by
+  simp [UInt8.toNat_ofNat']; omega
+
 /-! ### prefix stability of the shared readers -/
 
 theorem slice_append {α} (b suffix : List α) (lo hi : Nat) (x : List α) (h : slice b lo hi = .ok x) :
@@ -390,5 +393,46 @@ theorem std_lawful_core : LawfulCodecs std (· ∈ lawfulTypes) where
       exact dec_stable typ ht bs suffix _ hd
     · cases htup
   size := fun typ n v bs v' ht hn h => enc_size typ n v bs v' ht hn h
+
+/-! ### `SetBufferFormat` -/
+
+theorem SmbString_marshal_format (s : SmbString.V) (bs : Bytes) (s' : SmbString.V)
+    (h : SmbString.marshal s = .ok (bs, s')) : s'.format = s.format := by
+  unfold SmbString.marshal at h
+  split at h
+  · split at h
+    · cases h
+    · simp only [Outcome.ok.injEq, Prod.mk.injEq] at h; rw [← h.2]
+  · split at h
+    · simp only [Outcome.ok.injEq, Prod.mk.injEq] at h; rw [← h.2]
+    · split at h
+      · split at h
+        · cases h
+        · simp only [Outcome.ok.injEq, Prod.mk.injEq] at h; rw [← h.2]
+      · cases h
+
+/-- `SMB_STRING.Marshal` keeps the buffer format `SetBufferFormat` has just set -/
+theorem std_lawful_fmt_core : LawfulFmt std (· = "SMB_STRING") where
+  fmt := by
+    intro typ k v bs v' hty hk h
+    subst hty
+    obtain ⟨a, a', hof, hma, rfl⟩ := lift_ok (show lift strOf SmbString.marshal strTo (setFmt k v) = .ok (bs, v') from h)
+    have hfa : a.format = u8 k := by
+      obtain ⟨ns, bss⟩ := v
+      cases ns with
+      | nil => simp [setFmt, strOf] at hof
+      | cons x rest =>
+        simp only [setFmt] at hof
+        unfold strOf at hof
+        split at hof
+        · rename_i f l b heq
+          simp only [Prod.mk.injEq, List.cons.injEq] at heq
+          injection hof with hof
+          rw [← hof, ← heq.1.1]
+        · cases hof
+    have hf' := SmbString_marshal_format a bs a' hma
+    show setFmt k (strTo a') = strTo a'
+    simp only [strTo, setFmt, hf', hfa, u8, Prod.mk.injEq, List.cons.injEq, and_true]
+    exact (toNat_ofNat_lt' k hk).symm
 
 end Manticore.SmbStd
